@@ -25,8 +25,9 @@ def _safe(fn, *a, **k):
 RATE_INPUTS = {'discountrate': 'Discount Rate', 'FCR': 'Fixed Charge Rate', 'inflrateconstruction': 'Inflation Rate During Construction',
                'FIB': 'Fraction of Investment in Bonds', 'BIR': 'Inflated Bond Interest Rate', 'EIR': 'Inflated Equity Interest Rate',
                'RINFL': 'Inflation Rate', 'CTR': 'Combined Income Tax Rate', 'GTR': 'Gross Revenue Tax Rate', 'RITC': 'Investment Tax Credit Rate',
-               'PTR': 'Property Tax Rate', 'CAPEX_heat_electricity_plant_ratio': 'CHP Electrical Plant Cost Allocation Ratio',
-               'electricity_cost_to_buy': 'Electricity Rate'}
+               'PTR': 'Property Tax Rate', 'electricity_cost_to_buy': 'Electricity Rate'}
+# (not the cogeneration cost-allocation ratio: the run computes it unless the input provides it, and a provided value equal to the declared
+#  default counts as not provided - the live value is the one the definitions refer to)
 
 
 def expected_lc(m, inp=None):
@@ -37,7 +38,7 @@ def expected_lc(m, inp=None):
     em, eu, cls = kind(m)
 
     def rate(obj, attr):
-        txt = (inp or {}).get(RATE_INPUTS[attr])
+        txt = (inp or {}).get(RATE_INPUTS[attr]) if attr in RATE_INPUTS else None
         if txt is not None:
             try:
                 return float(str(txt).strip())
